@@ -176,6 +176,11 @@ func (m *runtimeContextManager) requireCPU(cpuAmount uint64) {
 		m.KillContext()
 	}
 	cpuUsed := m.usedResources.Cpu + cpuAmount
+	if cpuUsed < cpuAmount {
+		// The counter would wrap around: saturate so the limit check below
+		// sees the request as too big rather than as a small one.
+		cpuUsed = ^uint64(0)
+	}
 	if atLimit(cpuUsed, m.hardLimits.Cpu) {
 		m.TerminateContext("CPU limit of %d exceeded", m.hardLimits.Cpu)
 	}
@@ -204,6 +209,10 @@ func (m *runtimeContextManager) requireMem(memAmount uint64) {
 		m.KillContext()
 	}
 	memUsed := m.usedResources.Memory + memAmount
+	if memUsed < memAmount {
+		// Same as for CPU: saturate instead of wrapping around.
+		memUsed = ^uint64(0)
+	}
 	if atLimit(memUsed, m.hardLimits.Memory) {
 		m.TerminateContext("memory limit of %d exceeded", m.hardLimits.Memory)
 	}
